@@ -4,6 +4,7 @@ package main
 
 import (
 	"fmt"
+	"os"
 	"strings"
 	"testing"
 	"testing/synctest"
@@ -242,7 +243,14 @@ func runEnvProperty(t *testing.T, prop, part string, scs []envScenario, maxDev i
 		}
 		e := &vh.Env{Rep: rep, Scenario: sc.name, MaxDev: md,
 			Run: func(plan []vh.Deviation) vh.EnvRun {
-				return envRun(sc.conf, plan, sc.setup, goalDelivered, check)
+				chk := check
+				if os.Getenv("VERIF_TRACE") != "" { // debugging aid: print the trace of every run (use with a replay)
+					chk = func(r *rig) (string, string, string) {
+						fmt.Println(r.traceString() + r.treeDump())
+						return check(r)
+					}
+				}
+				return envRun(sc.conf, plan, sc.setup, goalDelivered, chk)
 			},
 			Alternatives: alts,
 		}
@@ -496,10 +504,21 @@ func confKeep() rigConf {
 	return c
 }
 
+var c02Big bool // set by the three-chunk scenario's setup (selects its reduced alphabet)
+
+func c02BigConf() rigConf {
+	c := asDaemon(confOneThread())
+	c.Files = []rigFile{
+		{Name: "g/a", Data: strings.Repeat("A", 20), Age: 300},
+		{Name: "g/b", Data: strings.Repeat("B", 70), Age: 200},
+	}
+	return c
+}
+
 func TestC02Env(t *testing.T) {
 	d := 2
 	withFiles := func(c rigConf, ops ...string) func(r *rig) {
-		return func(r *rig) { armC02(r); r.fileOps = ops }
+		return func(r *rig) { armC02(r); c02Big = false; r.fileOps = ops }
 	}
 	scs := []envScenario{
 		esc("2 files, 1 thread, delete, one-shot", confOneThread(), withFiles(confOneThread(), "rewrite", "append")),
@@ -508,20 +527,33 @@ func TestC02Env(t *testing.T) {
 		esc("2 files, 1 thread, delete, daemon, min-age 60 s (a changed file is not picked up by the very next scan)", minAge(asDaemon(confOneThread()), 60*time.Second), withFiles(confOneThread(), "rewrite", "append")),
 		esc("2 files, delete, receiver holds an older version known only from its log", confOneThread(), func(r *rig) {
 			armC02(r)
+			c02Big = false
 			r.fileOps = []string{"rewrite"}
 			r.preload = []preloaded{{Name: "g/a", Data: "older version of a", AgeH: 30}}
 		}),
-		{"2 files, delete, receiver holds older versions of both; the two-chunk file is rewritten while in flight (one deviation)", confOneThread(), func(r *rig) {
+		{"2 files, delete, daemon, receiver holds older versions of both; the three-chunk file is rewritten while in flight and the receiver is unreachable for a minute (a scan runs while the old version is half sent)", c02BigConf(), func(r *rig) {
 			armC02(r)
+			c02Big = true
 			r.fileOps = []string{"rewrite"}
 			r.preload = []preloaded{{Name: "g/a", Data: "older version of a", AgeH: 30}, {Name: "g/b", Data: "older version of b", AgeH: 29}}
-		}, 1},
+		}, 2},
 	}
 	for i := range scs {
 		scs[i].conf.Horizon = 10 * time.Minute
 	}
 	runEnvProperty(t, "C02", "release of source files (E-ENV)", scs, d,
 		func(ev vh.EnvEvent, plan []vh.Deviation) []string {
+			if c02Big {
+				// reduced alphabet for the three-chunk scenario: the file changes at a data request,
+				// a later data request finds the receiver unreachable for 60 s
+				if kindOf(ev.Key) != "data" {
+					return nil
+				}
+				if len(plan) == 0 {
+					return pick(ev.Menu, "file:rewrite:g/b")
+				}
+				return pick(ev.Menu, "down:60")
+			}
 			var out []string
 			switch kindOf(ev.Key) {
 			case "validate":
